@@ -76,6 +76,8 @@ def atoms(facts):
         if k != "RECENT":
             A += [(k,), ("UN" + k,)]
     A += [("KEYWORD", "kwone"), ("UNKEYWORD", "kwone"), ("KEYWORD", "kwtwo"), ("KEYWORD", "nosuch"), ("UNKEYWORD", "nosuch")]
+    # keywords spelled like the MH sequences that hold the system flags: a key agrees with what FETCH FLAGS shows, and that is \\Seen, not Seen
+    A += [("KEYWORD", "Seen"), ("UNKEYWORD", "flagged"), ("KEYWORD", "replied")]
     sizes = sorted({f["size"] for f in facts})
     for sz in (sizes[0], sizes[len(sizes) // 2], sizes[-1]):
         for d in (-1, 0, 1):
@@ -195,7 +197,7 @@ def work(unit):
                 if undef:
                     continue
                 if r is None or r.typ != "OK" or res is None or sorted(res) != exp or len(res) != len(set(res)):
-                    fails.append(Failure(PROP, "C14.result", {"keys": sorted({k for k in _ops(p)}), "uid": uidf, "tagged": r.typ if r else None},
+                    fails.append(Failure(PROP, "C14.result", dict({"keys": sorted({k for k in _ops(p)}), "uid": uidf, "tagged": r.typ if r else None}, **({"mh_name_keyword": True} if _mh_keyword(p) else {})),
                                          {"driver": "c14", "corpus": corpus, "program": text}, exp, res if r is not None and r.typ == "OK" else str(r)))
     finally:
         w.close()
@@ -216,6 +218,20 @@ def _ops(p):
         yield from _ops(p[1])
     else:
         yield p[0]
+
+
+MH_NAMES = {"seen", "unseen", "flagged", "replied", "deleted", "draft", "recent"}
+
+
+def _mh_keyword(p) -> bool:
+    """Does the program hold a KEYWORD / UNKEYWORD key whose argument is the name of an MH sequence that stands for a system flag?"""
+    if p[0] == "and":
+        return any(_mh_keyword(x) for x in p[1])
+    if p[0] == "or":
+        return _mh_keyword(p[1]) or _mh_keyword(p[2])
+    if p[0] == "not":
+        return _mh_keyword(p[1])
+    return p[0] in ("KEYWORD", "UNKEYWORD") and str(p[1]).lower() in MH_NAMES
 
 
 def recent_laws(corpus):
